@@ -276,7 +276,8 @@ class so3_log_angle(FnContract):
         ang = spec.angle(a.r)
         pi = sym.pi_axiom()
         if a.degrees:
-            yield Clause("angle_deg", res == ang * 180 / pi, role="prop")
+            yield Clause("angle_deg", c.eq(res, npstub.rad2deg(ang)), role="prop",
+                         note="rad2deg(x) = x*180/pi (trusted numpy contract)")
         else:
             yield Clause("angle_rad", res == ang, role="prop")
             yield Clause("range", c.And(res >= 0, res <= pi), role="prop")
